@@ -1,5 +1,5 @@
 CONSTANTS
-  Tier = 1
+  Tier = 3
   MaxStr = 0
   Export = TRUE
   Need = {"eq", "lt"}
